@@ -18,7 +18,9 @@ backends = [
     ["nobackend",   "pysnark.nobackend"]
 ]
 
-for mod in backends:
+# derived backends (libsnarkgg, zkifbellman, zkifbulletproofs) import their base module, so look for the
+# most specific pre-imported module first
+for mod in reversed(backends):
     if mod[1] in sys.modules:
         backend_name = mod[0]
         backend = sys.modules[mod[1]]
